@@ -138,18 +138,27 @@ Proof.
 Qed.
 Print Assumptions C12_load_rejects_extension_refuted.
 
-(* "never a partially populated module" is false for the entry loops: a section whose last entry overruns the
-   section is cut short silently and the module is returned anyway.  Witness: a 13-byte string section holding
-   the entry "a" followed by an entry that claims 100 bytes; one string comes back, eight bytes are ignored. *)
+(* loading is all or nothing INSIDE a section too (repair 919fdcf in /repo): a file that loads has complete sections --
+   each announced section lies inside the file, and the bytes of a strings / functions / debug / imports section are
+   exactly the serialisation of a list of entries: every entry inside its section, no byte left over
+   ([section_complete], [table_complete] in Nvm/FormatProofs.v; imports also carry param_count parameter bytes) *)
+Theorem C12_load_complete_sections : forall data m, bytes_ok data -> deserialize data = Loaded m ->
+  Forall (section_complete data) (m_secs m).
+Proof. exact load_complete_sections. Qed.
+Print Assumptions C12_load_complete_sections.
+
+(* the former counter-example (a 13-byte string section holding the entry "a" followed by an entry that claims 100 bytes,
+   valid checksum) and its relatives are refused now: last entry overruns / bytes left over, for each table type *)
 Definition partial_file : list byte := [78; 86; 77; 1; 1; 0; 0; 0; 0; 0; 0; 0; 0; 0; 0; 0; 1; 0; 0; 0; 44; 0; 0; 0; 13; 0; 0; 0; 214; 229; 31; 49; 2; 0; 0; 0; 44; 0; 0; 0; 13; 0; 0; 0; 1; 0; 0; 0; 97; 100; 0; 0; 0; 122; 122; 122; 122].
-Theorem C12_load_complete_sections_refuted :
-  exists data m, bytes_ok data /\ deserialize data = Loaded m /\
-    m_secs m = [(SEC_STRINGS, 44, 13)] /\ m_strings m = [[97]] /\ len (ser_strings (m_strings m)) < 13.
-Proof.
-  exists partial_file. eexists. split; [apply bytes_okb_spec; vm_compute; reflexivity|].
-  split; [vm_compute; reflexivity|]. vm_compute. repeat split; reflexivity.
-Qed.
-Print Assumptions C12_load_complete_sections_refuted.
+Definition leftover_files : list (list byte) :=
+  [ [78; 86; 77; 1; 1; 0; 0; 0; 0; 0; 0; 0; 0; 0; 0; 0; 1; 0; 0; 0; 44; 0; 0; 0; 8; 0; 0; 0; 178; 163; 58; 60; 2; 0; 0; 0; 44; 0; 0; 0; 8; 0; 0; 0; 1; 0; 0; 0; 97; 0; 0; 0];      (* strings: 3 bytes after the last entry *)
+    [78; 86; 77; 1; 1; 0; 0; 0; 0; 0; 0; 0; 0; 0; 0; 0; 1; 0; 0; 0; 0; 0; 0; 0; 0; 0; 0; 0; 131; 113; 78; 60; 3; 0; 0; 0; 44; 0; 0; 0; 19; 0; 0; 0; 1; 2; 3; 4; 5; 6; 7; 8; 9; 10; 11; 12; 13; 14; 15; 16; 17; 18; 7];      (* functions: 18-byte entry + 1 byte *)
+    [78; 86; 77; 1; 1; 0; 0; 0; 0; 0; 0; 0; 0; 0; 0; 0; 1; 0; 0; 0; 0; 0; 0; 0; 0; 0; 0; 0; 210; 131; 194; 167; 9; 0; 0; 0; 44; 0; 0; 0; 11; 0; 0; 0; 1; 0; 0; 0; 2; 0; 0; 0; 0; 0; 0];      (* debug: 8-byte entry + 3 bytes *)
+    [78; 86; 77; 1; 1; 0; 0; 0; 0; 0; 0; 0; 0; 0; 0; 0; 1; 0; 0; 0; 0; 0; 0; 0; 0; 0; 0; 0; 120; 134; 106; 185; 8; 0; 0; 0; 44; 0; 0; 0; 13; 0; 0; 0; 1; 0; 0; 0; 2; 0; 0; 0; 5; 0; 3; 1; 2] ].    (* imports: param_count 5, two parameter bytes present *)
+Example C12_malformed_sections_refused :
+  forallb bytes_okb (partial_file :: leftover_files) = true /\
+  forallb (fun f => match deserialize f with Refused => true | _ => false end) (partial_file :: leftover_files) = true.
+Proof. vm_compute. split; reflexivity. Qed.
 
 (* ---- non-vacuity: the hypotheses are satisfiable and the positive theorems have instances ---- *)
 Example C12_witness_loads : deserialize (serialize witness_m) = Loaded (stamp witness_m).
